@@ -307,9 +307,78 @@ type vf38Node struct {
 	Key   *keys.PublicKey   `json:"-"`
 	KeyS  string            `json:"key"`
 	State int64             `json:"state"`
+	// how the location attributes were produced (evidence only, the oracle does not read it)
+	Locode string `json:"locode_shape,omitempty"`
 }
 
-var vf38Locodes = []string{"RU MOW", "DE BER", "SE STO", "US NYC", "FI HEL"}
+// Locations announced by generated candidates.  The first half are UN/LOCODE records that
+// carry a subdivision, the second half records WITHOUT one (the DB has many of those: city
+// states, small countries): for them an honest node announces no SubDivCode/SubDiv at all.
+var vf38Locodes = []string{
+	"RU MOW", "DE BER", "SE STO", "US NYC", "FI HEL", "JP TYO",
+	"SG SIN", "HK HKG", "LU LUX", "IS REY", "NL AMS", "AQ MCM",
+}
+
+// the LOCODE-derived attributes (names as in the NeoFS API)
+var vf38LocodeAttrs = []string{"CountryCode", "Country", "Location", "Continent", "SubDivCode", "SubDiv"}
+
+// vf38LocodeDerived reads the location DB (third-party module, not code under test) and
+// returns what the record implies for every LOCODE-derived attribute; "" = the attribute
+// must be absent.
+func vf38LocodeDerived(lc string) (map[string]string, error) {
+	rec, err := locodedb.Get(lc)
+	if err != nil {
+		return nil, err
+	}
+	return map[string]string{
+		"CountryCode": lc[:locodedb.CountryCodeLen],
+		"Country":     rec.Country,
+		"Location":    rec.Location,
+		"Continent":   rec.Cont.String(),
+		"SubDivCode":  rec.SubDivCode,
+		"SubDiv":      rec.SubDivName,
+	}, nil
+}
+
+// vf38ForeignValue returns a non-empty value of attribute attr taken from another location
+// of the pool and different from the honest one.
+func vf38ForeignValue(rng *rand.Rand, attr, honest string) string {
+	start := rng.IntN(len(vf38Locodes))
+	for i := range vf38Locodes {
+		if d, err := vf38LocodeDerived(vf38Locodes[(start+i)%len(vf38Locodes)]); err == nil && d[attr] != "" && d[attr] != honest {
+			return d[attr]
+		}
+	}
+	return "Atlantis"
+}
+
+// vf38ForgeLocodeAttr makes one LOCODE-derived attribute of an otherwise honest candidate
+// differ from the DB record: a value of another location, presence flipped (dropped where the
+// record has a value, invented where the record has none), or a different spelling.
+func vf38ForgeLocodeAttr(rng *rand.Rand, n *vf38Node, want map[string]string) string {
+	attr := vf38LocodeAttrs[rng.IntN(len(vf38LocodeAttrs))]
+	honest := want[attr]
+	shape := ""
+	switch m := rng.IntN(3); {
+	case honest == "":
+		n.Attrs[attr] = vf38ForeignValue(rng, attr, honest)
+		shape = "invented"
+	case m == 0:
+		n.Attrs[attr] = vf38ForeignValue(rng, attr, honest)
+		shape = "foreign"
+	case m == 1:
+		delete(n.Attrs, attr)
+		shape = "dropped"
+	default:
+		v := strings.ToLower(honest)
+		if v == honest {
+			v = honest + "x"
+		}
+		n.Attrs[attr] = v
+		shape = "respelled"
+	}
+	return attr + ":" + shape
+}
 
 func vf38GenNode(rng *rand.Rand) vf38Node {
 	n := vf38Node{Attrs: map[string]string{}}
@@ -352,29 +421,107 @@ func vf38GenNode(rng *rand.Rand) vf38Node {
 			n.Attrs["VerifiedNodesDomain"] = "broken.nodes.example"
 		}
 	}
-	if rng.IntN(3) == 0 {
+	if rng.IntN(5) < 2 {
+		// a candidate announcing its location: start from what an honest storage node
+		// announces (UN-LOCODE + everything the DB record implies, nothing for empty fields) ...
 		lc := vf38Locodes[rng.IntN(len(vf38Locodes))]
+		want, err := vf38LocodeDerived(lc)
+		if err != nil {
+			panic("harness: location pool entry not in the DB: " + lc)
+		}
 		n.Attrs["UN-LOCODE"] = lc
-		if rec, err := locodedb.Get(lc); err == nil {
-			n.Attrs["CountryCode"] = lc[:2]
-			n.Attrs["Country"] = rec.Country
-			n.Attrs["Location"] = rec.Location
-			n.Attrs["Continent"] = rec.Cont.String()
-			if rec.SubDivCode != "" {
-				n.Attrs["SubDivCode"] = rec.SubDivCode
-			}
-			if rec.SubDivName != "" {
-				n.Attrs["SubDiv"] = rec.SubDivName
+		for _, a := range vf38LocodeAttrs {
+			if want[a] != "" {
+				n.Attrs[a] = want[a]
 			}
 		}
-		switch rng.IntN(4) {
-		case 0:
-			n.Attrs["Country"] = "Atlantis"
-		case 1:
-			n.Attrs["UN-LOCODE"] = "ZZ QQQ"
+		// ... then possibly make it dishonest
+		switch x := rng.IntN(20); {
+		case x < 7:
+			n.Locode = "honest"
+		case x < 16:
+			n.Locode = "forged " + vf38ForgeLocodeAttr(rng, &n, want)
+		case x == 16:
+			n.Locode = "forged " + vf38ForgeLocodeAttr(rng, &n, want) + " " + vf38ForgeLocodeAttr(rng, &n, want)
+		case x == 17:
+			n.Attrs["UN-LOCODE"] = strings.ReplaceAll(lc, " ", "") // compact spelling the DB accepts as well
+			n.Locode = "honest compact"
+		default:
+			n.Attrs["UN-LOCODE"] = []string{"ZZ QQQ", strings.ToLower(lc), lc[:2] + "  " + lc[3:], lc[:2] + " Q0Q", lc + "X", lc[:1]}[rng.IntN(6)]
+			n.Locode = "unknown location"
+		}
+		if want["SubDivCode"] == "" && want["SubDiv"] == "" {
+			n.Locode += " (record without subdivision)"
 		}
 	}
 	return n
+}
+
+// ---------------------------------------------------------------------------------------
+// reference reading of the configured validators' rules (independent of their code)
+
+// addresses the generator uses that break the documented composition of a node address
+// (network.VerifyMultiAddress: 2..3 protocols, dns4/ip4/ip6 then tcp then optional tls)
+var vf38BadAddr = map[string]string{
+	"/ip4/10.1.2.3/udp/8080":       "transport-not-tcp",
+	"not an address at all":        "unparseable-address",
+	"/tcp/8080":                    "no-network-protocol",
+	"/ip4/1.2.3.4/tcp/80/tls/http": "more-than-3-protocols",
+}
+
+// vf38MustReject tells, from the descriptor alone, whether the rule the named validator
+// stands for forbids this candidate, and why ("" = the reference does not object, which
+// includes everything the rule's description is silent about).  It never calls the
+// validator: a validator whose own check got weaker is thereby seen as "approved although
+// the validator's rule rejects".
+//
+//	state:          status MUST be ONLINE or MAINTENANCE
+//	structure:      every announced address has the documented protocol composition
+//	privatedomains: a declared verified-nodes domain must list the node; failure to check = refusal
+//	locode:         a declared UN-LOCODE must be in the location DB and every LOCODE-derived
+//	                attribute must equal what the DB record says (absent where the record is empty)
+func vf38MustReject(validator string, n vf38Node) string {
+	switch validator {
+	case "state":
+		if n.State != netmaprpc.NodeStateOnline.Int64() && n.State != netmaprpc.NodeStateMaintenance.Int64() {
+			return "status-not-online-or-maintenance"
+		}
+	case "structure":
+		for _, a := range n.Addrs {
+			if why, bad := vf38BadAddr[a]; bad {
+				return why
+			}
+		}
+	case "privatedomains":
+		if d := n.Attrs["VerifiedNodesDomain"]; d != "" {
+			if err := (vf38NNS{}).CheckDomainRecord(d, "any"); errors.Is(err, privatedomains.ErrMissingDomainRecord) {
+				return "not-in-domain-access-list"
+			} else if err != nil {
+				return "domain-check-impossible"
+			}
+		}
+	case "locode":
+		lc := n.Attrs["UN-LOCODE"]
+		if lc == "" {
+			return ""
+		}
+		want, err := vf38LocodeDerived(lc)
+		if err != nil {
+			return "location-not-in-db"
+		}
+		for _, a := range vf38LocodeAttrs {
+			if got := n.Attrs[a]; got != want[a] {
+				switch {
+				case want[a] == "":
+					return a + "-claimed-but-record-has-none"
+				case got == "":
+					return a + "-missing"
+				}
+				return a + "-differs-from-record"
+			}
+		}
+	}
+	return ""
 }
 
 // vf38RefInfo is the harness' own rendering of the descriptor as node information.
@@ -575,9 +722,9 @@ func TestVerif_C38(t *testing.T) {
 	defer r.Finish()
 	nCfg := r.Pick(150, 1500)
 	perCfg := r.Pick(60, 150)
-	r.SetRule(fmt.Sprintf("%d seeded validator configurations (ordered lists of 0..5 of {state, structure, privatedomains, locode, 3 scripted}) x %d add-node notary requests each (random descriptors; script verdict of the chain HALT/FAULT/error; malformed argument shapes, two-call scripts, update-state calls, broken request structure, expired fallbacks); distinct = (configuration, request kind, chain verdict, set of rejecting validators, approved?) signatures", nCfg, perCfg))
+	r.SetRule(fmt.Sprintf("%d seeded validator configurations (ordered lists of 0..5 of {state, structure, privatedomains, locode, 3 scripted}) x %d add-node notary requests each (random descriptors incl. honest and forged location attribute sets over DB records with and without subdivision; script verdict of the chain HALT/FAULT/error; malformed argument shapes, two-call scripts, update-state calls, broken request structure, expired fallbacks); distinct = (configuration, request kind, chain verdict, set of rejecting validators, approved?) signatures", nCfg, perCfg))
 	r.Assume("'request transaction is valid' = the chain client reports HALT for the main transaction's script and signers (IsValidScript)")
-	r.Assume("'validator accepts' = Verify of that configured validator returns nil for the node information rendered from the descriptor; network-dialling validators (availability, external) are replaced by scripted ones")
+	r.Assume("'validator accepts' = Verify of that configured validator returns nil for the node information rendered from the descriptor AND, for the four real validators, the harness' own reading of the validator's rule (status online/maintenance; documented address composition; verified-domain access list; UN-LOCODE known to the location DB with every LOCODE-derived attribute equal to the DB record, absent where the record is empty) does not forbid the descriptor; network-dialling validators (availability, external) are replaced by scripted ones")
 
 	for ci := 0; ci < nCfg; ci++ {
 		rng := r.Rand("cfg", ci)
@@ -611,6 +758,11 @@ func TestVerif_C38(t *testing.T) {
 	}
 	if r.Counter("addnode_refused_validator") == 0 || r.Counter("addnode_refused_chain_verdict") == 0 {
 		r.Inconclusive("refusal paths were not exercised")
+	}
+	for _, name := range []string{"state", "structure", "privatedomains", "locode"} {
+		if r.Counter("reference_rule_rejects_"+name) == 0 {
+			r.Inconclusive("no candidate broke the rule of validator " + name + " while it was configured")
+		}
 	}
 }
 
@@ -734,6 +886,32 @@ func vf38AdmissionCase(r *verifkit.Run, f *vf38Fixture, rng *rand.Rand, ci, qi i
 	sort.Strings(rej)
 	desc["oracle_rejecting_validators"] = rej
 
+	// reference reading of the configured validators' rules, from the descriptor alone
+	var must []string // "<validator>:<reason>", configured validators only
+	for _, n := range nodes {
+		if n.Locode != "" {
+			r.Seen("location_shapes", n.Locode)
+		}
+		for _, name := range f.validator {
+			why := vf38MustReject(name, n)
+			if why == "" {
+				continue
+			}
+			if !slices.Contains(must, name+":"+why) {
+				must = append(must, name+":"+why)
+			}
+			r.Count("reference_rule_rejects_"+name, 1)
+			r.Seen("reference_rejection_reasons", name+":"+why)
+			if ni, ok := vf38RefInfo(n); ok && vf38ValidatorByName(name).Verify(ni) == nil {
+				// not a verdict by itself (the statement speaks about approvals), but shown in the evidence
+				r.Count("reference_rule_rejects_but_validator_accepts_"+name, 1)
+				r.Seen("reference_rule_rejects_but_validator_accepts", name+":"+why)
+			}
+		}
+	}
+	sort.Strings(must)
+	desc["reference_rules_rejecting"] = must
+
 	approved := false
 	for _, c := range f.chain.take() {
 		if c.Op != "NotarySignAndInvokeTX" || c.Tx == nil {
@@ -760,8 +938,16 @@ func vf38AdmissionCase(r *verifkit.Run, f *vf38Fixture, rng *rand.Rand, ci, qi i
 		if len(rej) > 0 {
 			r.Violation("addnode|approved-although-validator-rejects|"+strings.Join(rej, "+"), fmt.Sprintf("admission approved although configured validators %v reject the node information (configuration %v)", rej, f.validator), desc)
 		}
+		for _, m := range must {
+			r.Violation("addnode|approved-although-validator-rule-rejects|"+m, fmt.Sprintf("admission approved although the rule of configured validator %s forbids this node information (configuration %v; the validator's own answer: rejecting=%v)", m, f.validator, rej), desc)
+		}
 		if abstain {
 			r.Count("addnode_approved_with_unrepresentable_state", 1)
+		}
+		for _, n := range nodes {
+			if n.Locode != "" {
+				r.Seen("approved_location_shapes", n.Locode)
+			}
 		}
 		// every configured validator must have been asked about every node of the request and have said yes
 		f.vMu.Lock()
@@ -783,6 +969,9 @@ func vf38AdmissionCase(r *verifkit.Run, f *vf38Fixture, rng *rand.Rand, ci, qi i
 			r.Count("addnode_refused_chain_verdict", 1)
 		case len(rej) > 0 || abstain:
 			r.Count("addnode_refused_validator", 1)
+			for _, m := range must {
+				r.Seen("refused_and_reference_rule_rejects", m)
+			}
 		default:
 			offline := false
 			for _, n := range nodes {
@@ -795,7 +984,7 @@ func vf38AdmissionCase(r *verifkit.Run, f *vf38Fixture, rng *rand.Rand, ci, qi i
 			}
 		}
 	}
-	r.Distinct(fmt.Sprintf("%v|%s|%s|%v|%v", f.validator, kind, vs, rej, approved))
+	r.Distinct(fmt.Sprintf("%v|%s|%s|%v|%v|%v", f.validator, kind, vs, rej, must, approved))
 	if qi == 0 && ci < 3 {
 		r.Sample(desc)
 	}
